@@ -5,6 +5,8 @@ use super::ZeroCopyStrategy;
 impl<T: ZeroCopyVecValue> RawStrategy<T> for ZeroCopyStrategy<T> {
     #[inline(always)]
     unsafe fn read_from_ptr(ptr: *const u8, byte_offset: usize) -> T {
+        #[cfg(feature = "verif_hooks")]
+        rawdb::verif::access(|| rawdb::verif::AccessEvent::Ptr { addr: ptr as usize + byte_offset, len: size_of::<T>() });
         unsafe { (ptr.add(byte_offset) as *const T).read_unaligned() }
     }
 }
